@@ -470,7 +470,7 @@ def centrifugate_hints(
     if not hints:
         return Source("\n".join(lines))
     for i in (0, -1):
-        if f" {HINT_COMMENT}" not in lines[i]:
+        if HINT_COMMENT not in lines[i]:
             lines[i] += f" {HINT_COMMENT}"
     for hint in sorted(hints):
         lines[0] += f" {hint}..."
